@@ -295,6 +295,32 @@ def crossJudge (f : List String) (out : String) : String :=
     | some s, some v => Casket.TLSSpec.crossSHVerdict c.cfgs c.sni ⟨c.host, c.path, 1⟩ (s, v)
     | _, _ => "bad:unparsable:" ++ out
 
+/- c06.loaded  aesni  sites  cfgs  how  snihex  hosthex  pathhex
+     the listener of c06.cross built from a Casketfile by the real loader.  sites[i].key = the address AS WRITTEN,
+     sites[i].addrHost = the host pattern it MEANS (becomes the config's hostname here); cfgs = what the tls blocks
+     mean; `how` (the way the blocks are written) is not read: the answer is a function of the meaning.
+     out = <full c06.select out> || <served out> -/
+def parseLoaded : List String → Option CrossCase
+  | [a, ss, cs, _how, n, h, p] => parseCross [a, ss, cs, n, h, p]
+  | _ => none
+
+def loadedModel (f : List String) : String :=
+  match parseLoaded f with
+  | none => "bad-case"
+  | some c =>
+    let o := connectSH c.aesni c.sites c.cfgs c.sni c.host c.path
+    showObs o.1 ++ "\t||\t" ++ showServed o.2
+
+def loadedJudge (f : List String) (out : String) : String :=
+  match parseLoaded f with
+  | none => "bad:unparsable:case"
+  | some c =>
+    let (a, b) := splitBars (out.splitOn "\t") []
+    if a == ["err:load"] then "ok"     -- the loader refused the file: no listener (the property is silent; the model comparison reports it)
+    else match parseObs ("\t".intercalate a), parseServed ("\t".intercalate b) with
+    | some s, some v => Casket.TLSSpec.loadedVerdict c.aesni c.cfgs c.sni ⟨c.host, c.path, 1⟩ (s, v)
+    | _, _ => "bad:unparsable:" ++ out
+
 /- c06.setup  aesni  block
      block = ';' list of lines  <namehex>|<arghex>,<arghex>,…   (the body of `tls self_signed { … }`)
      out   = err:<argcount|badprotocol|badcipher|badcurve|mingtmax|unknown>
@@ -347,51 +373,66 @@ def parseFinal (s : String) : Option (Except SetupErr Final) :=
                 clientCerts := cc })
   | _ => none
 
-def setupModel : List String → String
-  | [a, b] =>
+/-- the optional third field (the site address as written) is not read: the block's meaning does not depend on it -/
+def setupFields : List String → Option (String × String)
+  | [a, b] => some (a, b)
+  | [a, b, _addr] => some (a, b)
+  | _ => none
+
+def setupModel (f : List String) : String :=
+  match setupFields f with
+  | some (a, b) =>
     match parseBlock b with
     | none => "bad-case"
     | some block =>
       match Casket.TLSSetup.setupTLS (a == "1") block with
       | .error e => showSetupErr e
       | .ok f => showFinal f
-  | _ => "bad-case"
+  | none => "bad-case"
 
 def setupJudge (f : List String) (out : String) : String :=
-  match f with
-  | [a, b] =>
+  match setupFields f with
+  | some (a, b) =>
     match parseBlock b, parseFinal out with
     | some block, some o => Casket.TLSSetupSpec.verdict (a == "1") block o
     | _, _ => "bad:unparsable:" ++ out
-  | _ => "bad:unparsable:case"
+  | none => "bad:unparsable:case"
 
-/- c06.listener  aesni  block    out = err | fail | ok TAB version TAB sanhex TAB requested -/
+/- c06.listener  aesni  block  block2  [w1  w2  other]    out = err | fail | ok TAB version TAB sanhex TAB requested
+     block / block2: the sites a.test:8443 and a.test:8443/admin (block2 = "-": no second site); other: a site b.test:8443
+     (absent or "-": none).  w1 / w2 = the first two addresses as written — not read: hostnames are what they mean. -/
 def aTest : Bytes := Casket.TLSSetup.str "a.test"
+def bTest : Bytes := Casket.TLSSetup.str "b.test"
 
 open Casket.TLSSetup in
 /-- the site's settings as the `tls` block states them (before defaults), for the listener model -/
-def rawCfgOf (r : Raw) : Cfg :=
-  { hostname := aTest, enabled := true, minV := r.minV, maxV := r.maxV, ciphers := r.ciphers, curves := r.curves,
+def rawCfgOf (host : Bytes) (r : Raw) : Cfg :=
+  { hostname := host, enabled := true, minV := r.minV, maxV := r.maxV, ciphers := r.ciphers, curves := r.curves,
     preferServer := false, clientAuth := r.clientAuth, clientCerts := [], alpn := r.alpn, disableSNIMatching := r.disableSNI }
 
 structure ListenerCase where
   aesni : Bool
-  blocks : List (List Casket.TLSSetup.Line)     -- one per site; all sites share the host name a.test
+  blocks : List (Bytes × List Casket.TLSSetup.Line)     -- one per site: the host name its address means, its block
 
 def listenerCase : List String → Option ListenerCase
   | [a, b, b2] => do
     let bl ← parseBlock b
-    if b2 == "-" then pure { aesni := a == "1", blocks := [bl] }
-    else pure { aesni := a == "1", blocks := [bl, ← parseBlock b2] }
+    if b2 == "-" then pure { aesni := a == "1", blocks := [(aTest, bl)] }
+    else pure { aesni := a == "1", blocks := [(aTest, bl), (aTest, ← parseBlock b2)] }
+  | [a, b, b2, _w1, _w2, o] => do
+    let bl ← parseBlock b
+    let second ← if b2 == "-" then pure [] else do pure [(aTest, ← parseBlock b2)]
+    let third ← if o == "-" then pure [] else do pure [(bTest, ← parseBlock o)]
+    pure { aesni := a == "1", blocks := (aTest, bl) :: second ++ third }
   | _ => none
 
 /-- the sites' settings as their `tls` blocks state them, or none if some block is rejected / names a CA file
 (the CA files of the generator do not exist: NewServer fails) -/
 def listenerCfgs (c : ListenerCase) : Option (List Cfg) :=
-  c.blocks.mapM fun bl =>
+  c.blocks.mapM fun (host, bl) =>
     match Casket.TLSSetup.applyLines {} bl with
     | .error _ => none
-    | .ok r => if !r.clientCerts.isEmpty then none else some (rawCfgOf r)
+    | .ok r => if !r.clientCerts.isEmpty then none else some (rawCfgOf host r)
 
 def listenerModel (f : List String) : String :=
   match listenerCase f with
@@ -418,6 +459,7 @@ def streams : List Driver.Stream := [
   { name := "c06.listener", model := listenerModel, judge := listenerJudge },
   { name := "c06.connect", model := connModel, judge := connJudge },
   { name := "c06.cross", model := crossModel, judge := crossJudge },
+  { name := "c06.loaded", model := loadedModel, judge := loadedJudge },
   { name := "c06.build", model := buildModel, judge := buildJudge },
   { name := "c06.handshake", model := hsModel, judge := hsJudge },
   { name := "c06.snihost", model := sniModel, judge := sniJudge },
